@@ -235,6 +235,7 @@ def numeric_classes():
 class Row:
     name = ""
     n_cfg_factor = 1.0
+    ctx = None
 
     def gen_cfg(self, rng: random.Random, ctx) -> dict:
         return {}
@@ -362,14 +363,27 @@ class RLightColor(Row):
     def gen_ops(self, rng, cfg, dev, n):
         ops = []
         lay = cfg["layout"]
+        col = [rng.choice((0, 255, rng.randint(0, 255))) for _ in range(3)]
+        white = rng.choice((0, 255, rng.randint(0, 255)))
         for _ in range(n):
-            col = [rng.choice((0, 255, rng.randint(0, 255))) for _ in range(3)]
+            if rng.random() < 0.6:
+                # exactly one channel changes with respect to the previous request
+                i = rng.randrange(4 if "rgbw" in lay else 3)
+                v = rng.choice((0, 255, rng.randint(0, 255)))
+                if i < 3:
+                    col = list(col)
+                    col[i] = v if v != col[i] else (v + 1) % 256
+                else:
+                    white = v if v != white else (v + 1) % 256
+            else:
+                col = [rng.choice((0, 255, rng.randint(0, 255))) for _ in range(3)]
+                white = rng.choice((0, 255, rng.randint(0, 255)))
             if lay.startswith("individual") and rng.random() < 0.25:
                 ops.append([rng.choice(("set_on", "set_off")), None])
             elif "rgbw" in lay:
-                ops.append(["set_color", [col, rng.choice((0, 255, rng.randint(0, 255)))]])
+                ops.append(["set_color", [list(col), white]])
             else:
-                ops.append(["set_color", [col, None]])
+                ops.append(["set_color", [list(col), None]])
         return ops
 
     def pre(self, dev, cfg, op):
@@ -434,11 +448,18 @@ class RLightXYY(Row):
     def gen_ops(self, rng, cfg, dev, n):
         r = self.rep()
         ops = []
+        cur = [r.sample(rng), r.sample(rng), rng.randint(0, 255)]
         for _ in range(n):
-            x, y = r.sample(rng), r.sample(rng)
-            if rng.random() < 0.3:
-                x, y = round(rng.random(), rng.choice((1, 2, 3, 4))), round(rng.random(), rng.choice((1, 2, 3)))
-            ops.append(["set_xyy_color", [x, y, rng.choice((0, 255, rng.randint(0, 255)))]])
+            c = rng.random()
+            if c < 0.5:
+                i = rng.randrange(3)  # exactly one component changes
+                cur = list(cur)
+                cur[i] = r.sample(rng) if i < 2 else (cur[2] + rng.randint(1, 255)) % 256
+            elif c < 0.7:
+                cur = [round(rng.random(), rng.choice((1, 2, 3, 4))), round(rng.random(), rng.choice((1, 2, 3))), rng.choice((0, 255))]
+            else:
+                cur = [r.sample(rng), r.sample(rng), rng.choice((0, 255, rng.randint(0, 255)))]
+            ops.append(["set_xyy_color", list(cur)])
         return ops
 
     async def call(self, h, dev, cfg, op):
@@ -745,6 +766,8 @@ class RClimateShift(Row):
             "target_writable": rng.random() < 0.6,
             "t0": rng.choice((21.0, 20.5, 22.3, 19.0, 23.7)),
             "k0": k0,
+            # derived base temperature exactly 0.0: current target temperature == current setpoint shift
+            "zero_base": rng.random() < 0.3,
         }
 
     def kind(self, cfg):
@@ -765,8 +788,14 @@ class RClimateShift(Row):
             h.incoming_write("5/1/4", DPTValue1Count.to_knx(k0))
         else:
             h.incoming_write("5/1/4", DPTTemperature.to_knx(k0 * cfg["step"]))
-        h.incoming_write("5/1/2", DPTTemperature.to_knx(cfg["t0"]))
+        if cfg.get("zero_base"):
+            await h.settle()
+            h.incoming_write("5/1/2", DPTTemperature.to_knx(dev.setpoint_shift))
+        else:
+            h.incoming_write("5/1/2", DPTTemperature.to_knx(cfg["t0"]))
         await h.settle()
+        if dev.base_temperature == 0:
+            self.ctx.count("climate_base_temperature_exactly_zero")
         return dev
 
     def rep(self, cfg):
@@ -1089,45 +1118,93 @@ class RScene(Row):
 
 
 class RDateTime(Row):
+    """Time / Date / DateTime devices and ExposeSensor with the same DPTs; consecutive values mostly differ in ONE field."""
+
     name = "DateTime"
+    n_cfg_factor = 1.5
+    FIELDS = {
+        "time": ("hour", "minutes", "seconds", "day"),
+        "date": ("year", "month", "day"),
+        "datetime": ("year", "month", "day", "hour", "minutes", "seconds", "day_of_week", "fault", "working_day", "dst",
+                     "external_sync", "source_reliable"),
+    }
 
     def gen_cfg(self, rng, ctx):
-        return {"cls": rng.choice(("TimeDevice", "DateDevice", "DateTimeDevice"))}
+        return {"dpt": rng.choice(("time", "date", "datetime")), "host": rng.choice(("device", "device", "expose"))}
 
     def kind(self, cfg):
-        return cfg["cls"]
+        return cfg["dpt"] + ("/ExposeSensor" if cfg["host"] == "expose" else "")
 
     async def build(self, h, cfg):
         import xknx.devices as d
 
-        return add(h, getattr(d, cfg["cls"])(h.xknx, "t", localtime=False, group_address="5/0/1", sync_state=False))
+        if cfg["host"] == "expose":
+            return add(h, d.ExposeSensor(h.xknx, "e", group_address="5/0/1", value_type=cfg["dpt"]))
+        cls = {"time": "TimeDevice", "date": "DateDevice", "datetime": "DateTimeDevice"}[cfg["dpt"]]
+        return add(h, getattr(d, cls)(h.xknx, "t", localtime=False, group_address="5/0/1", sync_state=False))
+
+    @staticmethod
+    def _field(rng, dpt, name):
+        if name == "hour":
+            return rng.randint(0, 23)
+        if name in ("minutes", "seconds"):
+            return rng.randint(0, 59)
+        if name == "year":
+            return rng.randint(1990, 2089) if dpt == "date" else rng.choice((1900, 2155, rng.randint(1900, 2155)))
+        if name == "month":
+            return rng.randint(1, 12)
+        if name == "day" and dpt == "time":
+            return rng.randint(0, 7)  # KNXDay, 0 = no day
+        if name == "day":
+            return rng.randint(1, 28)
+        if name == "day_of_week":
+            return rng.randint(0, 7)
+        if name == "working_day":
+            return rng.choice((None, True, False))
+        return rng.random() < 0.5  # flags
 
     def gen_ops(self, rng, cfg, dev, n):
-        ops = []
-        for _ in range(n):
-            if cfg["cls"] == "TimeDevice":
-                ops.append(["set", [rng.randint(0, 23), rng.randint(0, 59), rng.randint(0, 59)]])
-            elif cfg["cls"] == "DateDevice":
-                ops.append(["set", [rng.choice((1990, 2089, rng.randint(1990, 2089))), rng.randint(1, 12), rng.randint(1, 28)]])
+        dpt = cfg["dpt"]
+        names = self.FIELDS[dpt]
+        cur = [self._field(rng, dpt, f) for f in names]
+        ops = [["set", list(cur)]]
+        for _ in range(n - 1):
+            if rng.random() < 0.75:
+                i = rng.randrange(len(names))  # exactly one component changes
+                for _try in range(8):
+                    v = self._field(rng, dpt, names[i])
+                    if v != cur[i]:
+                        cur[i] = v
+                        break
             else:
-                ops.append(["set", [rng.choice((1900, 2155, rng.randint(1900, 2155))), rng.randint(1, 12), rng.randint(1, 28),
-                                    rng.randint(0, 23), rng.randint(0, 59), rng.randint(0, 59)]])
+                cur = [self._field(rng, dpt, f) for f in names]
+            ops.append(["set", list(cur)])
         return ops
 
     def _value(self, cfg, op):
-        import datetime as dt
+        from xknx.dpt.dpt_10 import KNXDay, KNXTime
+        from xknx.dpt.dpt_11 import KNXDate
+        from xknx.dpt.dpt_19 import KNXDateTime, KNXDayOfWeek
 
-        if cfg["cls"] == "TimeDevice":
-            return dt.time(*op[1])
-        if cfg["cls"] == "DateDevice":
-            return dt.date(*op[1])
-        return dt.datetime(*op[1])
+        v = op[1]
+        if cfg["dpt"] == "time":
+            return KNXTime(v[0], v[1], v[2], KNXDay(v[3]))
+        if cfg["dpt"] == "date":
+            return KNXDate(*v)
+        return KNXDateTime(v[0], v[1], v[2], v[3], v[4], v[5], day_of_week=KNXDayOfWeek(v[6]), fault=v[7], working_day=v[8], dst=v[9],
+                           external_sync=v[10], source_reliable=v[11])
 
     async def call(self, h, dev, cfg, op):
         await dev.set(self._value(cfg, op))
 
     def observe(self, dev, cfg, op, pre):
-        return [("value", dev.value, self._value(cfg, op), None)]
+        want = self._value(cfg, op)
+        if cfg["host"] == "expose":
+            return [("resolve_state", dev.resolve_state(), want, None)]
+        out = [("remote_value.value", dev.remote_value.value, want, None)]
+        py = want.as_time() if cfg["dpt"] == "time" else want.as_date() if cfg["dpt"] == "date" else want.as_datetime()
+        out.append(("value", dev.value, py, None))
+        return out
 
 
 class RScalingProbe(Row):
@@ -1228,12 +1305,28 @@ def rows():
 # engine
 
 
+def fieldwise(x):
+    """Compare complex values field by field, never through the value's own __eq__ (a dataclass may exclude fields from it)."""
+    import dataclasses
+    import enum
+
+    if dataclasses.is_dataclass(x) and not isinstance(x, type):
+        return {"__class__": type(x).__name__, **{f.name: fieldwise(getattr(x, f.name)) for f in dataclasses.fields(x)}}
+    if isinstance(x, enum.Enum):
+        return (type(x).__name__, x.name)
+    if isinstance(x, (list, tuple)):
+        return tuple(fieldwise(i) for i in x)
+    if isinstance(x, dict):
+        return {k: fieldwise(v) for k, v in x.items()}
+    return x
+
+
 def judge(got, want, rep):
     """None if fine, else (kind, detail). Also returns a tag for the counters."""
     if rep is None:
         if got is None and want is not None:
             return "state-not-updated", "exact"
-        return (None if got == want else "wrong-value"), "exact"
+        return (None if fieldwise(got) == fieldwise(want) else "wrong-value"), "exact"
     kind, lo, hi = rep.around(want)
     if lo is None and hi is None:
         return None, "out_of_range_not_judged"
@@ -1336,7 +1429,7 @@ def run(ctx):
     ctx.require("setter_calls", "telegrams_looped_back", "judged_exact", "judged_representable", "judged_between",
                 "calls[Climate.set_setpoint_shift]", "calls[Climate.set_target_temperature]", "calls[Cover.set_position]",
                 "calls[Switch.set_on]", "calls[Light.set_brightness]", "calls[Fan.set_speed]", "calls[ClimateMode.set_operation_mode]",
-                "calls[NumericValue.set]", "calls[Cover.sequence]", "ga_dpt_table_own", "ga_dpt_table_relative", "ga_dpt_table_unrelated", "ga_dpt_table_none",
+                "calls[NumericValue.set]", "calls[Cover.sequence]", "calls[DateTime.set]", "climate_base_temperature_exactly_zero", "ga_dpt_table_own", "ga_dpt_table_relative", "ga_dpt_table_unrelated", "ga_dpt_table_none",
                 "ga_dpt_relative_parent", "ga_dpt_relative_child", "ga_dpt_entries_installed")
     n_cfg = ctx.scale(20, 60)
     n_val = ctx.scale(24, 40)
